@@ -908,6 +908,267 @@ theorem dfs_indep (g : Graph) : ∀ (fuel : Nat) (c₁ c₂ path : List Name) (x
           | faulty deps => exact finishFaulty_fst_congr (key deps (by simp [hn]))
 
 
+/-! ### every error points at a reachable fault -/
+
+/-- what the outcome `r` of visiting `x` with `path` in progress says about the graph -/
+def Blame (g : Graph) (path : List Name) (x : Name) : Outcome → Prop
+  | .ok => True
+  | .fuel => True
+  | .cyclic => (∃ y ∈ path, Reachable g x y) ∨ HasCycleFrom g x
+  | .notFound => ∃ y, Reachable g x y ∧ g.node y = .missing
+  | .io => ∃ y, Reachable g x y ∧ g.node y = .unreadable
+  | .syntax => ∃ y, Reachable g x y ∧ g.node y = .malformed
+  | .fault => ∃ y deps, Reachable g x y ∧ g.node y = .faulty deps
+
+theorem HasCycleFrom.lift {g : Graph} {x d : Name} (hd : d ∈ (g.node x).deps) (h : HasCycleFrom g d) :
+    HasCycleFrom g x := by
+  obtain ⟨y, z, h1, h2, h3⟩ := h
+  exact ⟨y, z, .step hd h1, h2, h3⟩
+
+theorem Blame.lift {g : Graph} {path : List Name} {x d : Name} {r : Outcome}
+    (hd : d ∈ (g.node x).deps) (h : Blame g (x :: path) d r) (hr : r ≠ .ok) : Blame g path x r := by
+  cases r with
+  | ok => exact absurd rfl hr
+  | fuel => trivial
+  | cyclic =>
+    rcases h with ⟨y, hy, hreach⟩ | h
+    · rcases List.mem_cons.1 hy with rfl | hy
+      · exact .inr ⟨y, d, .refl _, hd, hreach⟩
+      · exact .inl ⟨y, hy, .step hd hreach⟩
+    · exact .inr (h.lift hd)
+  | notFound => obtain ⟨y, h1, h2⟩ := h; exact ⟨y, .step hd h1, h2⟩
+  | io => obtain ⟨y, h1, h2⟩ := h; exact ⟨y, .step hd h1, h2⟩
+  | «syntax» => obtain ⟨y, h1, h2⟩ := h; exact ⟨y, .step hd h1, h2⟩
+  | fault => obtain ⟨y, ds, h1, h2⟩ := h; exact ⟨y, ds, .step hd h1, h2⟩
+
+theorem dfsDeps_blame {g : Graph} {path : List Name} {f : List Name → Name → Outcome × List Name}
+    {deps : List Name} (h : ∀ c d, d ∈ deps → Blame g path d (f c d).1) (c : List Name) :
+    (dfsDeps f c deps).1 = .ok ∨ ∃ d ∈ deps, Blame g path d (dfsDeps f c deps).1 := by
+  induction deps generalizing c with
+  | nil => left; rfl
+  | cons d ds ih =>
+    rw [dfsDeps]
+    have hd := h c d (by simp)
+    generalize f c d = res at hd
+    obtain ⟨r, c'⟩ := res
+    cases r
+    case ok =>
+      rcases ih (fun c d hd => h c d (by simp [hd])) c' with h | ⟨e, he, hb⟩
+      · exact .inl h
+      · exact .inr ⟨e, by simp [he], hb⟩
+    all_goals exact .inr ⟨d, by simp, hd⟩
+
+theorem dfs_blame (g : Graph) : ∀ (fuel : Nat) (c path : List Name) (x : Name),
+    Blame g path x (dfs fuel g c path x).1 := by
+  intro fuel
+  induction fuel with
+  | zero => intros; trivial
+  | succ fuel ih =>
+    intro c path x
+    by_cases hx : x ∈ path
+    · rw [dfs_cyclic hx]; exact .inl ⟨x, hx, .refl _⟩
+    · by_cases hc : x ∈ c
+      · rw [dfs_cached hx hc]; trivial
+      · rw [dfs_node hx hc]
+        have key := fun deps => dfsDeps_blame (g := g) (path := x :: path)
+          (f := fun c d => dfs fuel g c (x :: path) d) (deps := deps) (fun c d _ => ih c (x :: path) d) c
+        cases hn : g.node x with
+        | missing => exact ⟨x, .refl _, hn⟩
+        | unreadable => exact ⟨x, .refl _, hn⟩
+        | malformed => exact ⟨x, .refl _, hn⟩
+        | healthy deps =>
+          simp only []
+          have k := key deps
+          generalize dfsDeps (fun c d => dfs fuel g c (x :: path) d) c deps = res at k ⊢
+          obtain ⟨r, c'⟩ := res
+          rcases k with k | ⟨d, hd, hb⟩
+          · simp only at k; subst k; trivial
+          · cases r
+            case ok => trivial
+            all_goals (simp only [finishHealthy]; exact hb.lift (by rw [hn]; exact hd) (by simp))
+        | faulty deps =>
+          simp only []
+          have k := key deps
+          generalize dfsDeps (fun c d => dfs fuel g c (x :: path) d) c deps = res at k ⊢
+          obtain ⟨r, c'⟩ := res
+          rcases k with k | ⟨d, hd, hb⟩
+          · simp only at k; subst k; exact ⟨x, deps, .refl _, hn⟩
+          · cases r
+            case ok => exact ⟨x, deps, .refl _, hn⟩
+            all_goals (simp only [finishFaulty]; exact hb.lift (by rw [hn]; exact hd) (by simp))
+
+theorem Loadable.healthy_acyclic {g : Graph} {x : Name} (h : Loadable g x) :
+    (∀ y, Reachable g x y → ∃ deps, g.node y = .healthy deps) ∧ ¬ HasCycleFrom g x := by
+  constructor
+  · intro y hy
+    cases h.of_reachable hy with
+    | mk hn _ => exact ⟨_, hn⟩
+  · rintro ⟨y, z, h1, h2, h3⟩
+    exact (h.of_reachable h1).no_back z h2 h3
+
+/-- all reachable nodes healthy and no reachable cycle: the outcome is `ok` -/
+theorem dfs_ok_of_healthy_acyclic {g : Graph} {x : Name} {fuel : Nat} {c : List Name}
+    (hh : ∀ y, Reachable g x y → ∃ deps, g.node y = .healthy deps) (hc : ¬ HasCycleFrom g x)
+    (hfuel : g.length + 1 ≤ fuel) : (dfs fuel g c [] x).1 = .ok := by
+  have hb := dfs_blame g fuel c [] x
+  have hne := dfs_ne_fuel g fuel c [] x (by have := free_le g []; omega)
+  generalize (dfs fuel g c [] x).1 = r at hb hne
+  cases r with
+  | ok => rfl
+  | fuel => exact absurd rfl hne
+  | cyclic =>
+    rcases hb with ⟨y, hy, _⟩ | hb
+    · cases hy
+    · exact absurd hb hc
+  | notFound => obtain ⟨y, h1, h2⟩ := hb; obtain ⟨ds, h3⟩ := hh y h1; rw [h2] at h3; cases h3
+  | io => obtain ⟨y, h1, h2⟩ := hb; obtain ⟨ds, h3⟩ := hh y h1; rw [h2] at h3; cases h3
+  | «syntax» => obtain ⟨y, h1, h2⟩ := hb; obtain ⟨ds, h3⟩ := hh y h1; rw [h2] at h3; cases h3
+  | fault => obtain ⟨y, ds', h1, h2⟩ := hb; obtain ⟨ds, h3⟩ := hh y h1; rw [h2] at h3; cases h3
+
+
+/-! ### the loader is the depth-first traversal `Dfs` -/
+
+theorem finishHealthy_err {x : Name} {e : Outcome} {c : List Name} (h : e ≠ .ok) :
+    finishHealthy x (e, c) = (e, c) := by cases e <;> simp_all [finishHealthy]
+
+theorem finishFaulty_err {e : Outcome} {c : List Name} (h : e ≠ .ok) :
+    finishFaulty (e, c) = (e, c) := by cases e <;> simp_all [finishFaulty]
+
+theorem dfsDeps_sound {g : Graph} {path : List Name} {f : List Name → Name → Outcome × List Name}
+    {deps : List Name}
+    (h : ∀ c d r c', d ∈ deps → f c d = (r, c') → r ≠ .fuel → Dfs g c path d r c') :
+    ∀ (c : List Name) (r : Outcome) (c' : List Name), dfsDeps f c deps = (r, c') → r ≠ .fuel →
+      DfsList g c path deps r c' := by
+  induction deps with
+  | nil => intro c r c' he _; rw [dfsDeps] at he; cases he; exact .nil
+  | cons d ds ih =>
+    intro c r c' he hr
+    rw [dfsDeps] at he
+    have hd := h c d (f c d).1 (f c d).2 (by simp) rfl
+    generalize f c d = res at hd he
+    obtain ⟨r1, c1⟩ := res
+    cases r1
+    case ok =>
+      exact .cons (hd (by simp)) (ih (fun c d r c' hm => h c d r c' (by simp [hm])) c1 r c' he hr)
+    all_goals (cases he; exact .stop (hd hr) (by simp))
+
+theorem dfs_sound (g : Graph) : ∀ (fuel : Nat) (c path : List Name) (x : Name) (r : Outcome) (c' : List Name),
+    dfs fuel g c path x = (r, c') → r ≠ .fuel → Dfs g c path x r c' := by
+  intro fuel
+  induction fuel with
+  | zero => intro c path x r c' h hr; rw [dfs] at h; cases h; exact absurd rfl hr
+  | succ fuel ih =>
+    intro c path x r c' h hr
+    by_cases hx : x ∈ path
+    · rw [dfs_cyclic hx] at h; cases h; exact .cyclic hx
+    · by_cases hc : x ∈ c
+      · rw [dfs_cached hx hc] at h; cases h; exact .cached hx hc
+      · rw [dfs_node hx hc] at h
+        have key := fun deps => dfsDeps_sound (g := g) (path := x :: path)
+          (f := fun c d => dfs fuel g c (x :: path) d) (deps := deps)
+          (fun c d r c' _ he hr => ih c (x :: path) d r c' he hr) c
+        cases hn : g.node x with
+        | missing => rw [hn] at h; cases h; exact .missing hx hc hn
+        | unreadable => rw [hn] at h; cases h; exact .unreadable hx hc hn
+        | malformed => rw [hn] at h; cases h; exact .malformed hx hc hn
+        | healthy deps =>
+          rw [hn] at h
+          simp only [] at h
+          have k := key deps
+          generalize dfsDeps (fun c d => dfs fuel g c (x :: path) d) c deps = res at k h
+          obtain ⟨r1, c1⟩ := res
+          cases r1
+          case ok => cases h; exact .healthy hx hc hn (k _ _ rfl (by simp))
+          all_goals (simp only [finishHealthy] at h; cases h; exact .healthyErr hx hc hn (k _ _ rfl hr) (by simp))
+        | faulty deps =>
+          rw [hn] at h
+          simp only [] at h
+          have k := key deps
+          generalize dfsDeps (fun c d => dfs fuel g c (x :: path) d) c deps = res at k h
+          obtain ⟨r1, c1⟩ := res
+          cases r1
+          case ok => cases h; exact .faulty hx hc hn (k _ _ rfl (by simp))
+          all_goals (simp only [finishFaulty] at h; cases h; exact .faultyErr hx hc hn (k _ _ rfl hr) (by simp))
+
+mutual
+theorem Dfs.complete {g : Graph} : ∀ {c p x r c'}, Dfs g c p x r c' →
+    ∃ n, ∀ fuel, n ≤ fuel → dfs fuel g c p x = (r, c')
+  | _, _, _, _, _, .cyclic h => ⟨1, fun fuel hf => by
+      obtain ⟨k, rfl⟩ : ∃ k, fuel = k + 1 := ⟨fuel - 1, by omega⟩
+      exact dfs_cyclic h⟩
+  | _, _, _, _, _, .cached h hc => ⟨1, fun fuel hf => by
+      obtain ⟨k, rfl⟩ : ∃ k, fuel = k + 1 := ⟨fuel - 1, by omega⟩
+      exact dfs_cached h hc⟩
+  | _, _, _, _, _, .missing h hc hn => ⟨1, fun fuel hf => by
+      obtain ⟨k, rfl⟩ : ∃ k, fuel = k + 1 := ⟨fuel - 1, by omega⟩
+      rw [dfs_node h hc, hn]⟩
+  | _, _, _, _, _, .unreadable h hc hn => ⟨1, fun fuel hf => by
+      obtain ⟨k, rfl⟩ : ∃ k, fuel = k + 1 := ⟨fuel - 1, by omega⟩
+      rw [dfs_node h hc, hn]⟩
+  | _, _, _, _, _, .malformed h hc hn => ⟨1, fun fuel hf => by
+      obtain ⟨k, rfl⟩ : ∃ k, fuel = k + 1 := ⟨fuel - 1, by omega⟩
+      rw [dfs_node h hc, hn]⟩
+  | _, _, _, _, _, .healthy h hc hn hl => by
+      obtain ⟨n, hn'⟩ := DfsList.complete hl
+      refine ⟨n + 1, fun fuel hf => ?_⟩
+      obtain ⟨k, rfl⟩ : ∃ k, fuel = k + 1 := ⟨fuel - 1, by omega⟩
+      rw [dfs_node h hc, hn]
+      simp only []
+      rw [hn' k (by omega)]
+      rfl
+  | _, _, _, _, _, .healthyErr h hc hn hl he => by
+      obtain ⟨n, hn'⟩ := DfsList.complete hl
+      refine ⟨n + 1, fun fuel hf => ?_⟩
+      obtain ⟨k, rfl⟩ : ∃ k, fuel = k + 1 := ⟨fuel - 1, by omega⟩
+      rw [dfs_node h hc, hn]
+      simp only []
+      rw [hn' k (by omega), finishHealthy_err he]
+  | _, _, _, _, _, .faulty h hc hn hl => by
+      obtain ⟨n, hn'⟩ := DfsList.complete hl
+      refine ⟨n + 1, fun fuel hf => ?_⟩
+      obtain ⟨k, rfl⟩ : ∃ k, fuel = k + 1 := ⟨fuel - 1, by omega⟩
+      rw [dfs_node h hc, hn]
+      simp only []
+      rw [hn' k (by omega)]
+      rfl
+  | _, _, _, _, _, .faultyErr h hc hn hl he => by
+      obtain ⟨n, hn'⟩ := DfsList.complete hl
+      refine ⟨n + 1, fun fuel hf => ?_⟩
+      obtain ⟨k, rfl⟩ : ∃ k, fuel = k + 1 := ⟨fuel - 1, by omega⟩
+      rw [dfs_node h hc, hn]
+      simp only []
+      rw [hn' k (by omega), finishFaulty_err he]
+theorem DfsList.complete {g : Graph} : ∀ {c p ds r c'}, DfsList g c p ds r c' →
+    ∃ n, ∀ fuel, n ≤ fuel → dfsDeps (fun c d => dfs fuel g c p d) c ds = (r, c')
+  | _, _, _, _, _, .nil => ⟨0, fun _ _ => rfl⟩
+  | _, _, _, _, _, .cons h1 h2 => by
+      obtain ⟨n1, h1'⟩ := Dfs.complete h1
+      obtain ⟨n2, h2'⟩ := DfsList.complete h2
+      refine ⟨max n1 n2, fun fuel hf => ?_⟩
+      rw [dfsDeps]
+      simp only [h1' fuel (by omega)]
+      exact h2' fuel (by omega)
+  | _, _, _, _, _, .stop h he => by
+      obtain ⟨n1, h1'⟩ := Dfs.complete h
+      refine ⟨n1, fun fuel hf => ?_⟩
+      rw [dfsDeps]
+      simp only [h1' fuel hf]
+end
+
+/-- with enough fuel, the loader's result is THE result of the traversal -/
+theorem dfs_iff_Dfs (g : Graph) (fuel : Nat) (c path : List Name) (x : Name) (r : Outcome) (c' : List Name)
+    (hfuel : g.length + 1 ≤ fuel) : dfs fuel g c path x = (r, c') ↔ Dfs g c path x r c' := by
+  have hne := dfs_ne_fuel g fuel c path x (by have := free_le g path; omega)
+  constructor
+  · intro h; exact dfs_sound g fuel c path x r c' h (by rw [h] at hne; exact hne)
+  · intro h
+    obtain ⟨n, hn⟩ := h.complete
+    obtain ⟨n0, hn0⟩ := (dfs_sound g fuel c path x _ _ rfl hne).complete
+    have e1 := hn (max n n0) (by omega)
+    have e2 := hn0 (max n n0) (by omega)
+    rw [e1] at e2
+    exact e2.symm
+
 /-! ### back to `load` -/
 
 theorem cacheOK_iff {g : Graph} {st : LState} : CacheOK g st ↔ COK g st.cache st.inProgress :=
